@@ -550,8 +550,16 @@ func run(c *core.Ctx) {
 	c.Bound("fresh_process_sequence_len", c.Pick(2, 3))
 
 	// all interleavings of the concurrent scenarios
+	all := scenarios
+	if c.Thorough() {
+		all = append(append([]SchedCase{}, scenarios...),
+			SchedCase{Scenario: "4 threads x 1 call, same key, deviation bound 4", Threads: [][]Op{{{0, "person"}}, {{0, "person"}}, {{0, "person"}}, {{0, "person"}}}, Bound: 4},
+			SchedCase{Scenario: "3 threads x 2 calls, one key in both directions, deviation bound 4", Threads: [][]Op{{{0, "man"}, {1, "men"}}, {{1, "men"}, {0, "man"}}, {{0, "man"}, {1, "man"}}}, Bound: 4},
+			SchedCase{Scenario: "2 threads x 3 calls, alternating keys", Threads: [][]Op{{{0, "tooth"}, {0, "box"}, {0, "tooth"}}, {{0, "box"}, {0, "tooth"}, {0, "box"}}}, Bound: -1},
+		)
+	}
 	var names []string
-	for _, sc := range scenarios {
+	for _, sc := range all {
 		names = append(names, sc.Scenario)
 		exploreScenario(c, sc)
 	}
